@@ -10,6 +10,7 @@ fn main() {
         "ed25519-katcheck" => ed25519::katcheck(&args),
         "ed25519-clamp-replay" => ed25519::clamp_replay(&args),
         "ed25519-trace" => ed25519::trace(&args),
+        "ed25519-edge" => ed25519::edge(&args),
         "hash-trace" => hash::trace(&args),
         "kes-trace" => kes::trace(&args),
         "memsec-replay" => memsec::replay(&args),
